@@ -266,6 +266,8 @@ impl SecondaryStorage {
             ordered_pk_ids: ordered_pk_ids.to_vec(),
         };
 
+        #[cfg(risinglight_verif)]
+        crate::verif::point("ddl.create.begin", table_name).await;
         // Check, persist and apply as one step: two sessions creating the same name both passed
         // the binder's check, both logged a CreateTable record, and the manifest could not be
         // replayed any more.
